@@ -305,7 +305,8 @@ def oracle_single(case):
         if any(e[0] in ("res", "fail", "cf") for e in pre) and any(e[0] == "cancel" and len(e) > 1 for e in pre):
             def nomsg(c):
                 m_ = f"('{CANCEL_MSG}',)"
-                return {**c, "log": [x.replace(m_, "") for x in c["log"]], "out": c["out"].replace(m_, "")}
+                # (the log is a comma-joined string split again: the message's tuple repr may be split too)
+                return {**c, "log": ",".join(c["log"]).replace(m_, ""), "out": c["out"].replace(m_, "")}
             if nomsg(ce) in (nomsg(cp), nomsg(cp2)):
                 tags.add("message-race-in-window")
                 continue
